@@ -4,28 +4,36 @@ package main
 import (
 	"fmt"
 	"os"
+	"time"
 
 	"github.com/superfly/litefs/verifharness/core"
 	"github.com/superfly/litefs/verifharness/t3"
 )
 
 func main() {
+	t3.MaybeChild()
 	defer core.Cleanup()
 	ok, why := t3.Available()
 	fmt.Println("available:", ok, why)
 	if !ok {
 		os.Exit(0)
 	}
-	for i, w := range []t3.Workload{
+	ws := []t3.Workload{
 		{JournalMode: "delete", PageSize: 4096, CacheSize: 10, Steps: 25, Seed: 1},
 		{JournalMode: "wal", PageSize: 4096, CacheSize: 10, Steps: 25, Seed: 2, Replica: true},
 		{JournalMode: "truncate", PageSize: 512, CacheSize: 20, Steps: 25, Seed: 3, AutoVacuum: "incremental", Replica: true},
 		{JournalMode: "persist", PageSize: 1024, CacheSize: 8, Steps: 25, Seed: 4, Compress: true},
 		{JournalMode: "wal", PageSize: 512, CacheSize: 8, Steps: 30, Seed: 5, AutoVacuum: "incremental"},
 		{JournalMode: "delete", PageSize: 4096, CacheSize: 10, Steps: 30, Seed: 6, ModeSwitch: true},
-	} {
-		r := t3.Run(w, core.Scratch(fmt.Sprintf("t3-%d", i)))
-		fmt.Printf("%s: statements=%d commits=%d evals=%d skipped=%q fails=%d\n", w, r.Statements, r.Commits, r.Evals, r.Skipped, len(r.Fails))
+		{JournalMode: "delete", PageSize: 4096, CacheSize: 10, Steps: 30, Seed: 6, ModeSwitch: true, Replica: true},
+	}
+	only := os.Getenv("T3_ONLY")
+	for i, w := range ws {
+		if only != "" && only != fmt.Sprint(i) {
+			continue
+		}
+		r, hung := t3.RunIsolated(w, core.Scratch(fmt.Sprintf("t3-%d", i)), 120*time.Second)
+		fmt.Printf("%s: statements=%d commits=%d evals=%d skipped=%q fails=%d hung=%v\n", w, r.Statements, r.Commits, r.Evals, r.Skipped, len(r.Fails), hung)
 		for _, f := range r.Fails {
 			fmt.Printf("   %s %s %v\n", f.Monitor, f.Sig, f.Detail)
 		}
